@@ -490,6 +490,26 @@ func runC08(r *mc.Run) {
 			}
 		}
 	}
+	// 6b. every PAIR of XFAM / TD_ATTRIBUTES bits from all-zero (+fixed1): a permitted bit does not excuse another one
+	for _, f := range []struct {
+		name string
+		off  int
+	}{{"td_attributes", 48 + 120}, {"xfam", 48 + 128}} {
+		for b1 := 0; b1 < 64; b1++ {
+			for b2 := b1 + 1; b2 < 64; b2++ {
+				m := append([]byte(nil), raw0...)
+				for k := 0; k < 8; k++ {
+					m[f.off+k] = 0
+				}
+				if f.name == "xfam" {
+					m[f.off] = 3
+				}
+				m[f.off+b1/8] ^= 1 << uint(b1%8)
+				m[f.off+b2/8] ^= 1 << uint(b2%8)
+				add(fmt.Sprintf("mask/%s/zero^bit%d^bit%d", f.name, b1, b2), m, &validate.Options{})
+			}
+		}
+	}
 	// 7. cross-wiring: option A set to the quote's value of another same-sized field B
 	for _, a := range optFields {
 		for _, b := range optFields {
